@@ -1,7 +1,12 @@
 package dec
 
 import (
+	"encoding/json"
 	"fmt"
+	"sort"
+	"strings"
+
+	"github.com/dominant-strategies/go-quai/rlp"
 
 	"google.golang.org/protobuf/proto"
 	"google.golang.org/protobuf/reflect/protoreflect"
@@ -50,7 +55,7 @@ func sites(root proto.Message) []site {
 	return out
 }
 
-var byteLens = []int{0, 1, 19, 20, 21, 31, 32, 33, 64, 65, 1000}
+var byteLens = []int{0, 1, 19, 21, 31, 33, 65, 1000}
 
 // mutationsFor lists the mutation kinds applicable to a field.
 func mutationsFor(fd protoreflect.FieldDescriptor) []string {
@@ -75,7 +80,7 @@ func mutationsFor(fd protoreflect.FieldDescriptor) []string {
 	case fd.Kind() == protoreflect.BoolKind:
 		ms = append(ms, "flip")
 	default: // numeric / enum
-		ms = append(ms, "num-0", "num-1", "num-2", "num-3", "num-7", "num-max32", "num-max64")
+		ms = append(ms, "num-0", "num-1", "num-2", "num-3", "num-max32", "num-max64")
 	}
 	return ms
 }
